@@ -57,6 +57,7 @@ def main():
     ap.add_argument("--mutants-only", action="store_true")
     ap.add_argument("--seeds-only", action="store_true")
     ap.add_argument("--check-only", action="store_true", help="seeds: do not repeat demo/tests, only apply + check")
+    ap.add_argument("--resume", default="", help="log of an interrupted sweep (one JSON result per line)")
     a = ap.parse_args()
     global CHECK_ONLY
     CHECK_ONLY = a.check_only
@@ -67,7 +68,32 @@ def main():
         seeds = [d for d in seeds if os.path.basename(d)[:3] in only]
         muts = [m for m in muts if os.path.basename(os.path.dirname(m)) in only]
     jobs = ([] if a.mutants_only else [(seed_job, d) for d in seeds]) + ([] if a.seeds_only else [(mutant_job, m) for m in muts])
-    out = []
+    # results of an interrupted sweep: entries that were caught are not repeated
+    done = []
+    if a.resume and os.path.exists(a.resume):
+        for ln in open(a.resume):
+            try:
+                r = json.loads(ln)
+            except Exception:
+                continue
+            if r.get("caught") is True and r.get("applies") is not False:
+                done.append(r)
+    have = set(r["id"] for r in done)
+
+    def jid(f, x):
+        return os.path.basename(x) if f is seed_job else "%s/%s" % (os.path.basename(os.path.dirname(x)), os.path.basename(x)[:-6])
+    jobs = [(f, x) for f, x in jobs if jid(f, x) not in have]
+    # two checks of the same property share scratch files under out/<PID>/: interleave the properties so that concurrent
+    # jobs (almost always) belong to different properties
+    bypid = {}
+    for f, x in jobs:
+        bypid.setdefault(jid(f, x)[:3], []).append((f, x))
+    jobs = []
+    while any(bypid.values()):
+        for pid in sorted(bypid):
+            if bypid[pid]:
+                jobs.append(bypid[pid].pop(0))
+    out = list(done)
     with cf.ThreadPoolExecutor(a.jobs) as ex:
         futs = [ex.submit(f, x) for f, x in jobs]
         for fu in cf.as_completed(futs):
